@@ -93,10 +93,10 @@ func cmdVerify(args []string) {
 		fns = append(fns, fn)
 	}
 	sort.Slice(fns, func(i, j int) bool { return fns[i].String() < fns[j].String() })
-	cfg := SolverCfg{fastTimeoutMs: 5000, slowTimeoutS: 20, keepDir: os.Getenv("GOVC_KEEP")}
+	cfg := SolverCfg{fastTimeoutMs: 3000, slowTimeoutS: 25, keepDir: os.Getenv("GOVC_KEEP")}
 	var mu sync.Mutex
 	var wg sync.WaitGroup
-	sem := make(chan struct{}, 8)
+	sem := make(chan struct{}, 16)
 	t0 := time.Now()
 	total, failed := 0, 0
 	for _, fn := range fns {
@@ -108,7 +108,9 @@ func cmdVerify(args []string) {
 			con := P.contractFor(fn)
 			s := safe || (con != nil && con.has("safe"))
 			e := verifyFunction(P, fn, con, s, nil)
+			td := time.Now()
 			e.discharge(cfg)
+			e.secs = time.Since(td).Seconds()
 			mu.Lock()
 			defer mu.Unlock()
 			nf := 0
@@ -140,6 +142,11 @@ func cmdVerify(args []string) {
 							}
 						}
 					}
+				}
+			}
+			for _, n := range e.oblOrder {
+				if o := e.obls[n]; o.Secs > 1 && os.Getenv("GOVC_TIMES") != "" {
+					fmt.Printf("    slow %.1fs %s %s\n", o.Secs, o.Backend, o.Name)
 				}
 			}
 			for _, n := range e.notes {
